@@ -141,7 +141,7 @@ package queue
 //@   ensures Qapp(FQqueue(f.q)) - f.consumedSeq.val < 0 ==> result == 0
 //@ end
 //@ func consumerGroup.IsEmpty
-//@   prop C06
+//@   prop C06 C07 C08
 //@   requires cgOK(f)
 //@   ensures result == (Qapp(FQqueue(f.q)) <= f.acknowledgedSeq.val)
 //@ end
@@ -182,7 +182,7 @@ package queue
 //@   ensures old(q.acknowledgedSeq.val) <= q.appendedSeq.val ==> q.acknowledgedSeq.val <= q.appendedSeq.val
 //@ end
 //@ func queue.SetAppendedSeq
-//@   prop C06
+//@   prop C05 C06 C08
 //@   requires qOK(q)
 //@   modifies q.acknowledgedSeq.val, q.appendedSeq.val, cast(q.metaPage, "*page.mappedPage").mappedBytes[*]
 //@   ensures q.appendedSeq.val == seq && q.acknowledgedSeq.val == seq && qMetaPersisted(q)
@@ -360,3 +360,4 @@ package queue
 //@   ensures[entries_untouched] all(s, "int64", (s >= 0 && old(idxMapped(q, s))) ==> (idxMapped(q, s) && eDP(q, s) == old(eDP(q, s)) && eOff(q, s) == old(eOff(q, s)) && eLen(q, s) == old(eLen(q, s))))
 //@   ensures[cursor_above_every_message] err == nil ==> qInvAll(q)
 //@ end
+
